@@ -19,10 +19,11 @@ LEVEL_NOTE = ("Trusted: Lean kernel (+ standard axioms); that reads are pure in 
               "the implementation's reads DO run ravel()/_flatten_myself internally, and a read that mutated observable state, or a "
               "selection that stayed lazy, shows up as a difference between the two runs.")
 TECHNIQUE = "Lean 4 proof that reads are state-preserving in the heap model; metamorphic correspondence with inserted reads"
-DESIGN_REF = "6.10"
+DESIGN_REF = "7"
 LEAN_MODULES = ["NpsVerif.Props.C10"]
 KERNELS = ()
-RULE = ("cases = random histories (as C06, >= 30% containing select -> write-to-source -> read-selection) x random insertion of 1..6 "
+RULE = ("cases = random histories (as C06: 30% select -> write-to-source -> read-selection, 30% derivation chains with writes into "
+        "intermediate arrays, incl. writes through the numpy array an array was constructed over) x random insertion of 1..6 "
         "read-only operations of 12 kinds on arbitrary live arrays at arbitrary positions; every case runs the history twice on real "
         "objects (with / without the extra reads); distinct = distinct (history, insertions); non-trivial = history contains an "
         "assignment and a selection")
@@ -70,7 +71,7 @@ def cases(rng, tier):
             pos = rng.randint(1, len(prog) - 1) if len(prog) > 1 else 0
             extra.setdefault(str(pos), []).append([rng.randint(0, max(0, nvars - 1)), rng.choice(proggen.EXTRA_READS)])
         # model-level inserted read (for the Lean side): one read statement at a random position
-        out.append({"prog": prog, "extra": extra, "variant": rng.randint(0, 11),
+        out.append({"prog": prog, "extra": extra, "variant": rng.randint(0, 29),
                     "ins_pos": rng.randint(1, len(prog)), "ins_var": rng.randint(0, max(0, nvars - 1)),
                     "ins_kind": rng.choice(["read", "read_sum"])})
     return out
